@@ -31,8 +31,15 @@ def confirm(d):
         out['tests_stable_passed'], out['tests_missing'] = n, missing
     digest = lambda t: re.findall(r'\b[0-9a-f]{32,64}\b', t.lower())      # the hash(es) the differential demo prints
     out['digest_clean'], out['digest_patched'] = digest(out['demo_clean_tail']), digest(out['demo_patched_tail'])
-    out['ok'] = out['demo_clean_rc'] == 0 and out['demo_patched_rc'] == 0 and bool(out['digest_clean']) and \
-        out['digest_clean'] == out['digest_patched'] and not out['tests_missing']
+    if os.path.exists(os.path.join(d, 'reference.json')):
+        # round-off-level changes: the demo compares with its own reference file (written on the clean tree) within stated tolerances
+        out['mode'] = 'tolerant comparison with reference.json'
+        out['ok'] = out['demo_clean_rc'] == 0 and out['demo_patched_rc'] == 0 and 'MATCH' in out['demo_clean_tail'] and \
+            'MATCH' in out['demo_patched_tail'] and 'DIFFERENT' not in out['demo_patched_tail'] and not out['tests_missing']
+    else:
+        out['mode'] = 'identical digest'
+        out['ok'] = out['demo_clean_rc'] == 0 and out['demo_patched_rc'] == 0 and bool(out['digest_clean']) and \
+            out['digest_clean'] == out['digest_patched'] and not out['tests_missing']
     return out
 
 
